@@ -35,7 +35,10 @@ impl BlobWriter {
         Ok(())
     }
 
-    pub(crate) fn write_record(&mut self, record: Record) -> AnyResult<()> {
+    pub(crate) fn write_record(&mut self, mut record: Record) -> AnyResult<()> {
+        // Storage reads record at the offset stored in its header, so it must be the place where the
+        // record is written now (it differs from the source offset when preceding records were skipped)
+        record.header.set_blob_offset(self.written)?;
         bincode::serialize_into(&mut self.file, &record.header).with_context(|| "write header")?;
         let mut written = 0;
         written += bincode::serialized_size(&record.header)?;
